@@ -126,6 +126,14 @@ def _literal_keys(fn: FuncInfo, key: ast.AST, at: ast.AST, par: dict) -> list[st
                     d = [a.value for a in ast.walk(fn.node) if isinstance(a, ast.Assign) and any(norm(tt) == src.id for tt in a.targets)]
                     if d and all(isinstance(v, (ast.List, ast.Tuple)) and all(isinstance(e, ast.Constant) for e in v.elts) for v in d):
                         return [e.value for v in d for e in v.elts] + [c.args[0].value for c in ast.walk(fn.node) if isinstance(c, ast.Call) and norm(c.func) == f"{src.id}.append" and c.args and isinstance(c.args[0], ast.Constant)]
+                    # a module-level (or class-level) constant tuple / list / frozenset of names
+                    mv = fn.module.assigns.get(src.id) if not d else None
+                    if mv is None and not d and fn.cls is not None:
+                        mv = fn.cls.class_assigns.get(src.id)
+                    if isinstance(mv, ast.Call) and dotted(mv.func) in ("tuple", "list", "frozenset", "set") and len(mv.args) == 1:
+                        mv = mv.args[0]
+                    if isinstance(mv, (ast.List, ast.Tuple, ast.Set)) and all(isinstance(e, ast.Constant) for e in mv.elts):
+                        return [e.value for e in mv.elts]
                 return None
     return None
 
